@@ -41,6 +41,19 @@ CHECKS = {
         note="Partial: the positive re-filing clause (each source image/RPM appears under each binary arch) is checked by the "
              "oracle on the implementation and by the load correspondence, not stated as a Coq theorem over whole documents.",
         design="DESIGN.md section 6 C10"),
+    "C11": dict(
+        text="Heap model of the variant object graph (objects with identity, parent pointers, child maps) mirroring "
+             "VariantBase.add line by line, with the Variant validators taken from the regenerated inventory. Coq theorems: "
+             "C11_add_refused_noop (a refused add leaves the WHOLE graph unchanged), C11_add_accepted_child (an accepted add has "
+             "passed UID alignment and parent-arch validation with its parent set to the container and is not an ancestor), "
+             "C11_get_variants_sound (arch and type filters hold at every depth), C11_get_variants_all_level. Tie: histories of "
+             "up to 12 add calls over pools of <= 7 variants; after EVERY call all parent pointers and child maps are compared, "
+             "then uid/id lookups and get_variants combinations; implementation-side oracle for the forest invariants, lookup, "
+             "ordering and at-most-once.",
+        note="Partial: the global forest invariant (UID uniqueness, lookup by UID from the top, get_variants ordering/NoDup) is "
+             "checked by the oracle on every sampled history, not yet proved over all histories in Coq. Objects filed in two "
+             "places and dashed top-level UIDs with children are outside the property's quantifier (observation O11).",
+        design="DESIGN.md section 6 C11"),
     "C12": dict(
         text="Coq refinement theorems: C12_rpms_add_refines (an accepted Rpms.add is exactly one map update at (variant, arch, "
              "canonical SRPM NEVRA, canonical NEVRA) with the given path/category and lower-cased sigkey; every other entry "
